@@ -1628,7 +1628,8 @@ class Transaction(object):
             else:
                 r_witness += b'\0'
             if sign_id is None:
-                if i.script_type == 'nonstandard_0001':
+                if i.unlocking_script == b'\0':
+                    # varstr() returns a single zero byte unchanged, add the length byte for a scriptSig of exactly 00
                     r += b'\1'
                 r += varstr(i.unlocking_script)
             elif sign_id == i.index_n:
